@@ -1204,17 +1204,23 @@ def verify_function(prog: Program, reg: Registry, qualname: str, only_serves=Non
         rep["error"] = f"{type(e).__name__}: {e}\n" + traceback.format_exc()[-1500:]
         rep["wall_s"] = round(time.time() - t0, 3)
         return rep
+    # several paths produce obligations of the same name: the uid (name + occurrence in execution order) tells them apart
+    seen_names = {}
+    for ob in obligations:
+        k = seen_names.get(ob.name, 0)
+        seen_names[ob.name] = k + 1
+        ob.uid = f"{ob.name}#{k}"
     todo = [ob for ob in obligations if only_serves is None or (set(ob.serves) & set(only_serves))]
     rep["n_selected"] = len(todo)
     if only_names is not None:
-        todo = [ob for ob in todo if ob.name in only_names]
+        todo = [ob for ob in todo if ob.uid in only_names or ob.name in only_names]
     if part is not None:
         i, n = part
         todo = todo[i::n]
 
     def one(ob):
         r = discharge(reg, ob, both=both)
-        r.update({"kind": ob.kind, "serves": ob.serves, "lineno": ob.lineno, "boundary": ob.boundary,
+        r.update({"uid": ob.uid, "kind": ob.kind, "serves": ob.serves, "lineno": ob.lineno, "boundary": ob.boundary,
                   "clause": ob.clause})
         if ob.extra:
             r["extra"] = {k: str(v) for k, v in ob.extra.items()}
